@@ -1596,46 +1596,26 @@ func (h *fsmHandler) opensent(ctx context.Context) (bgp.FSMState, *fsmStateReaso
 			fsm.bgpMessageStateUpdate(bgp.BGP_MSG_KEEPALIVE, false)
 			return bgp.BGP_FSM_OPENCONFIRM, newfsmStateReason(fsmOpenMsgReceived, nil, nil)
 		case result := <-fsm.outgoingConnCh:
-			incomingConn := fsm.conn
+			// collision between the incoming connection (OpenSent) and the
+			// outgoing one, which has finished its OPEN exchange. The BGP
+			// Identifier of the peer is known from the OPEN on the outgoing
+			// connection: only the connection initiated by the speaker with
+			// the higher identifier survives (RFC 4271 6.8).
+			if !fsm.isDominant(result.open.Body.(*bgp.BGPOpen)) {
+				// close the outgoing connection, go on with the incoming one
+				fsm.logger.Debug("collision detected: dominant on passive side, close the outgoing connection")
+				result.conn.Close()
+				break
+			}
+			// close the incoming connection; whatever arrived on it is
+			// dropped with it.
+			fsm.logger.Debug("collision detected: dominant on active side, close the incoming connection")
+			fsm.conn.Close()
 			fsm.conn = result.conn
 			fsm.lock.Lock()
 			fsm.recvOpen = result.open
 			fsm.lock.Unlock()
 
-			var e *fsmMsg
-			select {
-			case e = <-recvChan:
-			default:
-			}
-			keepIncoming := false
-			if e != nil {
-				nextState, _, notif := fsm.handleOpen(e)
-				if nextState == bgp.BGP_FSM_OPENCONFIRM {
-					// collision detected
-					isDominant := fsm.isDominant(result.open.Body.(*bgp.BGPOpen))
-					if isDominant {
-						// close the incoming connection
-						fsm.logger.Debug("collision detected: dominant on active side, close the incoming connection")
-					} else {
-						// close the outgoing connection
-						fsm.logger.Debug("collision detected: dominant on passive side, close the outgoing connection")
-						result.conn.Close()
-						fsm.conn = incomingConn
-						fsm.lock.Lock()
-						fsm.recvOpen = e.MsgData.(*bgp.BGPMessage)
-						fsm.lock.Unlock()
-						keepIncoming = true
-					}
-				} else if notif != nil {
-					// sendNotification closes the connection
-					_ = fsm.sendNotification(incomingConn, notif)
-				}
-			}
-			if !keepIncoming {
-				// the session goes on with the outgoing connection; nobody
-				// looks at the incoming one any more.
-				incomingConn.Close()
-			}
 			b, _ := bgp.NewBGPKeepAliveMessage().Serialize()
 			fsm.conn.SetWriteDeadline(time.Now().Add(time.Second))
 			if _, err := fsm.conn.Write(b); err != nil {
